@@ -43,7 +43,7 @@ def job_closed(j):
             o.simulated.average_price_matched = d["a"] / 10000
             market.blotter[o.id] = o
             orders.append(o)
-        runners = [types.SimpleNamespace(selection_id=r["sel"], handicap=0, status=r["status"]) for r in c["runners"]]
+        runners = [types.SimpleNamespace(selection_id=r["sel"], handicap=r.get("hc", 0), status=r["status"]) for r in c["runners"]]
         mb = types.SimpleNamespace(runners=runners, number_of_winners=c["declared"],
                                    market_definition=types.SimpleNamespace(market_type=c["mtype"], each_way_divisor=c["div"]))
         market.blotter.process_closed_market(market, mb)
